@@ -40,7 +40,7 @@ QUAL = ['Quality', 'LinkQuality', 'ReactionRate', 'Concentration', 'BulkReaction
 
 
 # appended to RULE in the evidence (vlib/runner.py)
-RULE_ADDENDUM = 'Added in round 5: dictionaries with unordered and integer keys.'
+RULE_ADDENDUM = 'Added in round 5: dictionaries with unordered and integer keys. Round 6: pandas Series as a container.'
 
 def n_cases(tier):
     return len(FLOW) * (len(HYD) + len(QUAL))
